@@ -6,7 +6,7 @@ EXTENDS Usable, Json, IOUtils, SequencesExt
 TRec(T) == [tsel |-> T, tkeep |-> TKeep(T), expect |-> TargetExpect(T)]
 ASSUME JsonSerialize(IOEnv.OUT,
          [geom |-> [sx |-> SX, sy |-> SY, tx |-> TX, ty |-> TY, nmaxi |-> NMaxi, lagw |-> LagW, nlag |-> NLag,
-                    gnx |-> GNX, gdx2 |-> GDX2, gdy2 |-> GDY2],
+                    gnx |-> GNX, gdx2 |-> GDX2, gdy2 |-> GDY2, cgnx |-> CGNX, cgny |-> CGNY],
           targets |-> SetToSeq({TRec(T) : T \in TargetPatterns})])
 VARIABLE x
 Spec == x = 0 /\ [][UNCHANGED x]_x
